@@ -682,9 +682,14 @@ class Engine:
             self.frame_writes.add(id(holder))
         holder.ver = newver
 
+    ATTR_DICT_SORTS = {"_mapping": ("label", "int"), "_reverse_mapping": ("int", "label")}
+
     def write_attr(self, obj, name, value):
         if self.spec:
             raise Unsupported("heap write inside a specification expression")
+        if name in self.ATTR_DICT_SORTS and isinstance(value, DictVal) and value.ver.kind == "empty":
+            # an empty dict literal has no key/value sorts yet: these two attributes map label <-> integer
+            value = self.alloc(DictVal(FO.empty(self, T.Label, T.Int)))
         if self.frame_writes is not None:
             self.frame_writes.add((id(obj), name))
         obj.attrs[name] = value
@@ -1093,7 +1098,7 @@ class Engine:
             self.nfresh += 1
             o.mem = z3.Const("%s_mem!%d" % (hint, self.nfresh), z3.ArraySort(T.Label, T.Bool))
             o.card = z3.Int("%s_card!%d" % (hint, self.nfresh))
-            self.facts.add(o.card >= 0)
+            self.facts.add(z3.And(o.card >= 0, o.card == T.CARD(o.mem)))
         else:
             raise Unsupported("cannot havoc object of type %s" % type(o).__name__)
 
@@ -1714,7 +1719,7 @@ class Engine:
                 for k, v in fr.locals.items():
                     if isinstance(v, Builtin) and v.name.startswith("spec."):
                         pf.locals.setdefault(k, v)
-                return self.eval(n.args[0], pf)
+                return self._freeze(self.eval(n.args[0], pf))
             finally:
                 self.old = saved
         if self.spec and isinstance(n.func, ast.Name) and n.func.id == "old":
@@ -1722,7 +1727,7 @@ class Engine:
             st = getattr(self, "entry_snapshot_stack", None)
             self.old = st[-1] if st else None
             try:
-                return self.eval(n.args[0], fr)
+                return self._freeze(self.eval(n.args[0], fr))
             finally:
                 self.old = saved
         fn = self.eval(n.func, fr)
@@ -1748,6 +1753,16 @@ class Engine:
             else:
                 kwargs[kw.arg] = self.eval(kw.value, fr)
         return self.call(fn, args, kwargs, fr)
+
+    def _freeze(self, v):
+        """a mutable container read under old(...) / pre(...) is returned as its (immutable) old value"""
+        if isinstance(v, SetVal):
+            if self.old is not None and id(v) in self.old:
+                return SV(self.old[id(v)][0], "lset")
+            return SV(v.mem, "lset")
+        if isinstance(v, DictVal):
+            return self.store_of(v)
+        return v
 
     def call(self, fn, args, kwargs, fr=None):
         if isinstance(fn, Closure):
